@@ -82,6 +82,9 @@ class State:
         s.pc = list(self.pc)
         s.ghost = dict(self.ghost)
         s._envmap = mapping
+        for env in list(mapping.values()):
+            if "$closure" in env:
+                env["$closure"] = cp(env["$closure"])
         # rewrite closure references
         for env in list(mapping.values()):
             for k, v in list(env.items()):
